@@ -192,14 +192,17 @@ type msess struct {
 	urrs   map[uint32]URRSpec
 	pdrHas map[uint32]bool // URRs referenced by PDR 1 (while it exists)
 	pdr    bool
+	owner  int // socket (= node index) the session's reports go to: the establishing node until a takeover
 }
 
 type stats struct {
 	multiSess, unknown, big bool
-	reports                  int
+	takeover                bool
+	reports                 int
 }
 
 func run(c Case) (v *vcore.Violation, stt stats) {
+	vcore.Journal(c)
 	f, err := fullstack.NewFull(fullstack.FullOpts{Nodes: 2})
 	if err != nil {
 		panic("infrastructure: " + err.Error())
@@ -239,7 +242,7 @@ func run(c Case) (v *vcore.Violation, stt stats) {
 	for _, sp := range c.Sess {
 		var rules []stack.RuleOp
 		var refs []uint32
-		m := &msess{spec: sp, alive: true, urrs: map[uint32]URRSpec{}, pdrHas: map[uint32]bool{}, pdr: true, gone: map[uint32]URRSpec{}}
+		m := &msess{spec: sp, owner: sp.Node, alive: true, urrs: map[uint32]URRSpec{}, pdrHas: map[uint32]bool{}, pdr: true, gone: map[uint32]URRSpec{}}
 		for _, u := range sp.URRs {
 			ru := stack.RuleOp{Verb: "create", Kind: "URR", ID: u.ID, Method: u.Method, MNOP: u.MNOP, Trig: 0x02}
 			if u.Perio > 0 {
@@ -268,7 +271,7 @@ func run(c Case) (v *vcore.Violation, stt stats) {
 		for _, s := range o.SRRs {
 			idx := -1
 			for i, m := range ms {
-				if m.alive && m.spec.CP == s.SEID && m.spec.Node == s.Sock {
+				if m.alive && m.spec.CP == s.SEID && m.owner == s.Sock {
 					idx = i
 				}
 			}
@@ -389,6 +392,47 @@ func run(c Case) (v *vcore.Violation, stt stats) {
 			}
 			if x := checkSRRs(what, o, exp, allowEmpty); x != nil {
 				return x, stt
+			}
+		case "takeover":
+			// another SMF takes the session over: a Modification naming the other node's id.  go-upf re-keys the node the
+			// session was established under, so from now on the reports of all sessions of that node go to the new id's address.
+			if ev.Sess >= len(ms) || !ms[ev.Sess].alive {
+				continue
+			}
+			m := ms[ev.Sess]
+			from, to := m.owner, 1-m.owner
+			clash := false
+			for _, a := range ms {
+				for _, b := range ms {
+					if a.alive && b.alive && a.owner == from && b.owner == to && a.spec.CP == b.spec.CP {
+						clash = true // the two could no longer be told apart at the new owner's socket
+					}
+				}
+			}
+			if clash {
+				continue
+			}
+			o := r.Step(stack.Op{Kind: "mod", Peer: to, Sess: m.ref, Takeover: true, Node: to})
+			if x := dead(o, what); x != nil {
+				return x, stt
+			}
+			accepted := false
+			for _, mm := range o.Msgs[to] {
+				if mr, ok := mm.(*message.SessionModificationResponse); ok && stack.Cause(mr) == 1 {
+					accepted = true
+				}
+			}
+			if !accepted {
+				return vcore.Violatef("takeover-refused", "%s: Modification naming node %d for session #%d not accepted", what, to, ev.Sess), stt
+			}
+			for _, a := range ms {
+				if a.owner == from {
+					a.owner = to
+				}
+			}
+			stt.takeover = true
+			for s := range r.Pending {
+				r.Pending[s] = nil
 			}
 		case "tick":
 			exp := map[int][]want{}
@@ -613,7 +657,7 @@ func gen(t *rapid.T) Case {
 	}
 	n := rapid.IntRange(1, 12).Draw(t, "nev")
 	for i := 0; i < n; i++ {
-		k := rapid.SampledFrom([]string{"mcast", "mcast", "mcast", "mcast", "query", "query", "remove", "remove", "create", "create", "update", "rmpdr", "del", "tick", "tick"}).Draw(t, "kind")
+		k := rapid.SampledFrom([]string{"mcast", "mcast", "mcast", "mcast", "query", "query", "remove", "remove", "create", "create", "update", "rmpdr", "del", "tick", "tick", "takeover"}).Draw(t, "kind")
 		ev := Ev{Kind: k, Sess: rapid.IntRange(0, ns-1).Draw(t, "sess"), Vals: genVals(t)}
 		switch k {
 		case "mcast":
@@ -672,6 +716,9 @@ func account(c Case, s stats) {
 	}
 	if s.big {
 		vcore.E.Class("counter>=2^32")
+	}
+	if s.takeover {
+		vcore.E.Class("with_takeover")
 	}
 	if s.multiSess || s.unknown || s.big {
 		vcore.E.NonTrivial(vcore.JSON(c))
